@@ -587,6 +587,22 @@ Definition parse_pset (bs : bytes) : cres pset :=
       else RErr
   end.
 
+(* the same decoder, also returning the bytes it did not look at (what is left in the bytes.Buffer
+   when deserialize returns): parse_pset bs is parse_pset_rest bs with the remainder dropped *)
+Definition parse_pset_rest (bs : bytes) : cres (pset * bytes) :=
+  match take 5 bs with
+  | None => RErr
+  | Some (m, r) =>
+      if bytes_eqb m magic_sep then
+        cbind (parse_section global_tbl global_sanity r) (fun gr =>
+        let g := fst gr in
+        cbind (parse_secs input_tbl input_sanity (S (length (snd gr))) (num_val gInputCount g) (snd gr)) (fun ir =>
+        cbind (parse_secs output_tbl output_sanity (S (length (snd ir))) (num_val gOutputCount g) (snd ir)) (fun or_ =>
+        let p := mk_pset g (fst ir) (fst or_) in
+        if pset_sanity p then ROk (p, snd or_) else RErr)))
+      else RErr
+  end.
+
 Fixpoint ser_secs (tbl : list slot) (l : list sec) : cres bytes :=
   match l with
   | [] => ROk []
